@@ -97,7 +97,11 @@ def document(draw):
                 op["parameters"] = [maybe_ref(p) for p in local2]
             if m != "get" and draw(st.booleans()):
                 mts = draw(st.lists(st.sampled_from(["application/json", "text/plain", "application/xml"]), min_size=1, max_size=2, unique=True))
-                op["requestBody"] = {"content": {mt: {"schema": {"type": "object", "properties": {"on": {"type": "boolean"}, "no": {"type": "string"}, "1.5": {"type": "integer"}, "1e3": {"type": "integer"}, "null": {"type": "string"}, "~": {"type": "string"}, "2020-01-01": {"type": "string"}}, "required": ["1.5"]}} for mt in mts}}
+                body_schema = {"type": "object", "properties": {"on": {"type": "boolean"}, "no": {"type": "string"}, "1.5": {"type": "integer"}, "1e3": {"type": "integer"}, "null": {"type": "string"}, "~": {"type": "string"}, "2020-01-01": {"type": "string"}}, "required": ["1.5"]}
+                # `schema` is optional in a Media Type Object: `{}` means "any payload of this type" and is still an alternative
+                op["requestBody"] = {"content": {mt: ({} if draw(st.integers(0, 3)) == 0 else {"schema": body_schema}) for mt in mts}}
+                if draw(st.booleans()):
+                    op["requestBody"]["required"] = True
             if draw(st.integers(0, 7)) == 0:
                 op.setdefault("parameters", []).append({"$ref": "#/components/parameters/DoesNotExist"})
                 broken.append([path, m])
@@ -181,7 +185,7 @@ def to_swagger2(doc, global_consumes, consumes, form_consumes, salt):
             has_form = any(q.get("in") == "formData" for q in merged)
             op_level = (sum(map(ord, where + m)) + salt) % 2 == 0  # some operations carry their own `consumes`, some rely on the global one
             if "requestBody" in op and not has_form:
-                schema = next(iter(op["requestBody"]["content"].values()))["schema"]
+                schema = next(iter(op["requestBody"]["content"].values())).get("schema", {})
                 params.append({"name": "body", "in": "body", "required": True, "schema": schema})
                 if consumes and op_level:
                     nop["consumes"] = consumes
